@@ -75,7 +75,9 @@ func genC16Prog(id int, rng *rand.Rand) *Prog {
 		}
 		pos += rng.Intn(len(perFile[f]) - pos + 1)
 		perFile[f] = append(perFile[f][:pos], append([]item{{o + "\n", true}}, perFile[f][pos:]...)...)
-		usesFmt[f] = true
+		if strings.Contains(o, "fmt.") {
+			usesFmt[f] = true
+		}
 	}
 	for i := range perFile {
 		for _, it := range perFile[i] {
@@ -94,8 +96,21 @@ func genC16Prog(id int, rng *rand.Rand) *Prog {
 		files["main/"+n] = hdr + bodies[i].String()
 	}
 	desc = append(desc, fmt.Sprint(perm), fmt.Sprint(nfiles))
-	return &Prog{ID: "c16:" + strings.Join(desc, "/"), Files: files, Entry: "Main", Params: []Param{{"a", "int"}, {"b", "int"}}, Results: []string{"int"},
+	p := &Prog{ID: "c16:" + strings.Join(desc, "/"), Files: files, Entry: "Main", Params: []Param{{"a", "int"}, {"b", "int"}}, Results: []string{"int"},
 		Family: fmt.Sprintf("C16/E/perm%v/files%d/seed%d", perm, nfiles, id), Src: "package main\n"}
+	if id%2 == 1 {
+		// the same layout as an IMPORTED package: goatlang loads lib/ through main's import, Go's reference keeps
+		// the flattened package (declaration order and file layout are irrelevant in Go either way)
+		p.RefFiles = files
+		imp := map[string]string{"main/main.go": "package main\n\nimport \"lib\"\n\nfunc Main(a int, b int) int {\n\treturn lib.Main(a, b)\n}\n"}
+		for n, body := range files {
+			imp["lib/"+strings.TrimPrefix(n, "main/")] = strings.Replace(body, "package main\n", "package lib\n", 1)
+		}
+		p.Files = imp
+		p.ID += "/imported"
+		p.Family = strings.Replace(p.Family, "C16/E/", "C16/E/imported/", 1)
+	}
+	return p
 }
 
 func checkC16(tier string, seed int64) int {
@@ -134,6 +149,6 @@ func checkC16(tier string, seed int64) int {
 	eagg.Into(c, "layouts_")
 	c.Cov("layouts_paths_compared", st.compared)
 	c.Assumption(fmt.Sprintf("treeSort lemma: every list of 0..%d top-level nodes over 8 node kinds (import, type, const, method, function, init, var, call); sort.SliceStable is modelled as a stable insertion sort calling the real less closure", nodes))
-	c.Assumption(fmt.Sprintf("layouts: %d seeded (permutation of 6 hoistable declarations — struct types, methods and functions referring to each other, to constants and to types defined later, partition into 1–3 files) of one package, loaded with the real Load from an in-memory tree and compared with Go (whose semantics are order independent); constants, var initialisers and init keep their relative source order (they are spread over the files in non-decreasing file order and interleaved with the hoistables), as the property states", nprogs))
+	c.Assumption(fmt.Sprintf("layouts: %d seeded (permutation of 6 hoistable declarations — struct types, methods and functions referring to each other, to constants and to types defined later, partition into 1–3 files) of one package — every other layout as the top package, the others as a package imported by main — loaded with the real Load from an in-memory tree and compared with Go (whose semantics are order independent); constants, var initialisers and init keep their relative source order (they are spread over the files in non-decreasing file order and interleaved with the hoistables), as the property states", nprogs))
 	return c.Finish(false)
 }
